@@ -1572,6 +1572,72 @@ fn hazard_run(rng: &mut Rng, out: &mut Out, rec: &Arc<Recorder>, dir: &str, idx:
     let _ = std::fs::remove_file(&path);
 }
 
+/// several callers of `flush()` at once, with many retirements pending: each caller's `Ok` is an acknowledgement of
+/// every delete that completed before it was called - whichever thread does the retiring.  The moment a caller's
+/// flush returns, the device as it is *durably* (what has been fsynced by then, nothing else) is recovered: none of
+/// the deleted keys may be there.
+fn concurrent_flush_run(rng: &mut Rng, out: &mut Out, rec: &Arc<Recorder>, dir: &str, idx: u64) {
+    let blocks = 4096u64;
+    let path = format!("{}/cflush{}.feox", dir, idx);
+    let _ = std::fs::remove_file(&path);
+    *rec.plan.lock().unwrap() = FaultPlan::default();
+    rec.log.lock().unwrap().clear();
+    rec.hold_sector.store(0, Ordering::SeqCst);
+    rec.hold_state.store(0, Ordering::SeqCst);
+    rec.fd.store(-2, Ordering::SeqCst);
+    rec.enabled.store(true, Ordering::SeqCst);
+    let finish = |rec: &Arc<Recorder>| { rec.enabled.store(false, Ordering::SeqCst); rec.fd.store(-1, Ordering::SeqCst); };
+    let Ok(store) = open_store(&path, blocks, false) else { finish(rec); return };
+    let store = Arc::new(store);
+    let n = rng.range(600, 1800);
+    let keys: Vec<Vec<u8>> = (0..n).map(|i| format!("cf{}-{:05}", idx, i).into_bytes()).collect();
+    for k in &keys { let _ = store.insert(k, &rng.bytes(60)); }
+    if store.flush().is_err() { finish(rec); return; }
+    for k in &keys { let _ = store.delete(k); }
+    let callers = rng.range(2, 4) as usize;
+    let barrier = Arc::new(std::sync::Barrier::new(callers));
+    let mut hs = vec![];
+    for _ in 0..callers {
+        let (st, rec2, barrier) = (store.clone(), rec.clone(), barrier.clone());
+        hs.push(std::thread::spawn(move || {
+            barrier.wait();
+            let ok = st.flush().is_ok();
+            // what the device trace holds at the moment this caller was answered
+            let at = rec2.log.lock().unwrap().len();
+            (ok, at)
+        }));
+    }
+    let answers: Vec<(bool, usize)> = hs.into_iter().filter_map(|h| h.join().ok()).collect();
+    let trace: Vec<Ev> = rec.log.lock().unwrap().clone();
+    let _ = store.flush();
+    drop(store);
+    finish(rec);
+    out.count("concurrent-flush case");
+    for (i, (ok, at)) in answers.iter().enumerate() {
+        if !*ok { continue; }
+        let (img, _) = build_image(&trace, *at, blocks, &|_, _| Fate::Lost);
+        let p = write_image(dir, &format!("cflush{}_{}.feox", idx, i), &img);
+        let keep = format!("{}.orig", p);
+        std::fs::write(&keep, &img).unwrap();
+        let verdict = match recover(&p, blocks) {
+            Err(e) => Some(format!("the device as it was durably when the call returned does not recover: {}", e)),
+            Ok(rv) => {
+                let back = keys.iter().filter(|k| rv.contents.contains_key(*k)).count();
+                if back > 0 { Some(format!("{} of the {} keys are still there after a recovery of what was durable when the call returned", back, n)) } else { None }
+            }
+        };
+        let _ = std::fs::remove_file(&p);
+        match verdict {
+            Some(why) => {
+                out.fail("C02", format!("{} callers of flush() at once after {} deletes had completed: caller {} was answered Ok, but {}", callers, n, i, why), &keep);
+                break;
+            }
+            None => { let _ = std::fs::remove_file(&keep); }
+        }
+    }
+    let _ = std::fs::remove_file(&path);
+}
+
 /// a long write-behind queue meets a failing journal write: the first record writes are slow, so
 /// thousands of accepted writes pile up behind the worker and the next pass has several
 /// 1024-entry transactions per shard; a few journal intent writes then fail.  Once the device
@@ -1974,6 +2040,9 @@ fn main() {
     if has("hazard") {
         for i in 0..get("hazards", 4) {
             hazard_run(&mut rng, &mut out, &rec, &args.out.clone(), i);
+        }
+        for i in 0..get("cflush", 2) {
+            concurrent_flush_run(&mut rng, &mut out, &rec, &args.out.clone(), i);
         }
     }
     if has("writebehind") {
